@@ -3,7 +3,7 @@ import os, sys, json, math
 import vcommon as V
 import c02gen as G
 
-PROPS = ["coq/C02/Properties_C02.v", "coq/C02/Properties_C02_rot.v", "coq/C02/Properties_C02_sym.v"]
+PROPS = ["coq/C02/Properties_C02.v", "coq/C02/Properties_C02_rot.v", "coq/C02/Properties_C02_sym.v", "coq/C02/Properties_C02_fit.v"]
 EXTRACT = "coq/C02/Extract_C02.v"
 DRIVER = "props/C02/driver.ml"
 UNIT = {"c02unit": ["props/C02/unit.cpp"]}
@@ -422,8 +422,8 @@ def start_parallel(run):
         st = V.standard_start(run, PROPS, EXTRACT, DRIVER, UNIT)
     finally:
         V.coq_check_properties = orig
-    run.cov["checker_cmd"] = ("make -k -C coq C02/Properties_C02.vo C02/Properties_C02_rot.vo C02/Properties_C02_sym.vo && coqc -Q . CV <each of the three files> "
-                              "(Coq 8.16.1 kernel; the three files are compiled concurrently; native_compute not used)")
+    run.cov["checker_cmd"] = ("make -k -C coq C02/Properties_C02.vo C02/Properties_C02_rot.vo C02/Properties_C02_sym.vo C02/Properties_C02_fit.vo && "
+                              "coqc -Q . CV <each of the four files> (Coq 8.16.1 kernel; the files are compiled concurrently; native_compute not used)")
     return st
 
 
@@ -475,6 +475,23 @@ def check(run):
             c = gen_until(r, comp, generic=generic)
             if c is not None:
                 tie_cases.append([c])
+    # components built on the optimal rotation: the driver finds q with its own Jacobi iteration, the model maps q to the value
+    for comp in G.MODELLED_REF:
+        for k in range(8 * scale):
+            c = gen_ref_case(r, comp)
+            if c is None:
+                continue
+            q = c["q0"]
+            if comp == "eulerTheta" and abs(2 * (q[0] * q[2] - q[3] * q[1])) > 0.95:
+                continue
+            if comp in ("eulerPhi", "eulerPsi", "tilt", "spinAngle") and abs(2 * (q[0] * q[2] - q[3] * q[1])) > 0.98:
+                continue
+            c["tol"] = 1e-7
+            tie_cases.append([c])
+    for k in range(6 * scale):
+        c = gen_until(r, "distancePairs", generic=(k % 2 == 1))
+        if c is not None:
+            tie_cases.append([c])
     # combined variables: sum c_i q_i^n_i of scalar components on one system
     SCAL = [c for c in G.MODELLED if c not in G.VECTOR_VALUED]
     for k in range(30 * scale):
@@ -524,6 +541,27 @@ def check(run):
     for cs in tie_cases:
         i = impl.add(G.impl_line(cs)); m = mod.add(G.model_line(cs))
         jobs.append(("tie", cs, i, m))
+    # coordNum with a pair list: built at the first step, used (stale) at the second step with moved atoms
+    for k in range(12 * scale):
+        c = gen_until(r, "coordNum", generic=(k % 2 == 1), dup=0.0)
+        if c is None:
+            continue
+        c["params"]["tol"] = r.choice([0.001, 0.0078125, 0.05, 0.2]); c["params"].pop("center", None)
+        if not well_conditioned(c):
+            continue
+        amp = r.choice([0.0, 0.0, 0.3, 1.5])
+        for _ in range(30):
+            moved = [[a[0], a[1]] + [x + (r.gauss(0, amp) if amp else 0.0) for x in a[2:5]] for a in c["atoms"]]
+            c2 = dict(c); c2["atoms"] = moved
+            if well_conditioned(c2):
+                break
+        else:
+            continue
+        i0 = impl.add(G.impl_line([c])); i1 = impl.add(G.pos_line(moved))
+        t1 = G.model_tokens(c); t2 = G.model_tokens(c2)
+        gpos = t1.index("G")
+        m = mod.add(" ".join(["coordNumPL"] + t1[1:gpos - 1] + t1[gpos:] + t2[t2.index("G"):]))
+        jobs.append(("pairlist", {"case": c, "moved": moved, "i": [i0, i1], "amp": amp}, i1, m))
 
     # ---------------- B. exact cases with known answers (definition at special geometries)
     special = gen_special(r, 12 * scale)
@@ -584,6 +622,19 @@ def check(run):
                 run.sample({"tie": impl.lines[i][:400], "impl": iout[i], "model": mout[m]}); nsample += 1
         elif kind == "special":
             judge_special(run, obj, impl.lines[i], iout[i], mod.lines[m], mout[m])
+        elif kind == "pairlist":
+            a = parse_impl(iout[i]); b = parse_model(mout[m]); a0 = parse_impl(iout[obj["i"][0]])
+            run.count("pairlist/" + case_key(obj["case"]) + "/%g" % obj["amp"], True)
+            run.dist("tie:coordNum:pairlist" + (":moved" if obj["amp"] else ":same-positions"))
+            rep = replay_obj("lines", [impl.lines[k] for k in obj["i"]], {"model_lines": [mod.lines[m]]})
+            if a is None or a0 is None:
+                run.violation("value:coordNum:pairlist-error", "coordNum with a pair list fails: %s / %s" % (iout[obj["i"][0]][:80], iout[i][:80]), rep)
+            else:
+                if not vclose(a, b, TOL):
+                    run.mismatch("value:coordNum:pairlist", impl.lines[i][:200], iout[i], mout[m])
+                    run.violation("value:coordNum:pairlist:definition", "coordNum through a stale pair list: implementation %r, model %r" % (a, b), rep)
+                if obj["amp"] == 0.0 and not vclose(a, a0, 1e-12):
+                    run.violation("value:coordNum:pairlist:same-positions", "the pair-list step gives %r where the full evaluation at the same positions gave %r" % (a, a0), rep)
         elif kind == "meta":
             judge_meta(run, obj, impl.lines, iout)
         elif kind == "lines-same":
@@ -680,7 +731,7 @@ def judge_tie(run, cs, iline, iout, mline, mout):
         run.violation("value:%s:not-finite" % cs[0]["comp"], "value of %s is not finite (%s) away from any singular geometry" % (name, iout[:200]),
                       replay_obj("tie", [iline], {"model_lines": [mline], "cases": cs}))
         return
-    if not vclose(a, b, TOL, comp_period(cs)):
+    if not vclose(a, b, cs[0].get("tol", TOL), comp_period(cs)):
         run.mismatch("value:" + (cs[0]["comp"] if len(cs) == 1 else "combination"), {"impl_line": iline, "model_line": mline, "cases": cs}, iout, mout)
         # the model is the independent implementation of the documented definition: the disagreement IS the failing input
         run.violation("value:%s:definition" % (cs[0]["comp"] if len(cs) == 1 else "combination"),
